@@ -214,11 +214,14 @@ def judge_outputs(case):
     as_int = list(values)
     as_str = [refexec.bits(v, n) for v in values]
     mixed = [v if i % 2 else refexec.bits(v, n) for i, v in enumerate(values)]
+    mixed_int_first = [refexec.bits(v, n) if i % 2 else v for i, v in enumerate(values)]
+    mixed_late = [refexec.bits(v, n) if i >= len(values) // 2 else v for i, v in enumerate(values)]
     # strings the library accepts although they are not in canonical n-character form
     # (trailing zeros omitted, trailing newline of a log line): the readout must still be canonical
     loose = [(refexec.bits(v, n).rstrip("0") or "0") + ("\n" if i % 3 == 0 else "") for i, v in enumerate(values)]
     results = []
-    for tag, outs in (("int", as_int), ("str", as_str), ("mixed", mixed), ("noncanonical-str", loose)):
+    for tag, outs in (("int", as_int), ("str", as_str), ("mixed", mixed), ("mixed-int-first", mixed_int_first), ("mixed-int-then-str", mixed_late),
+                      ("noncanonical-str", loose)):
         o = lib.budgeted(lib.parse_output, 200000 + 400 * len(values), c, list(outs))
         if o[0] == "jaqal" and tag == "noncanonical-str":
             # refusing a non-canonical string with a JaqalError is within the property
